@@ -83,6 +83,13 @@ class C08(Oracle):
         if u is c:
             raise Violation("C08", "new-object", "same-object", {"operation": op})
         got = observe.doc_obs(u)
+        # Records that are merged may hold, for one attribute, numbers that a Python set
+        # conflates (1, True, 1.0): which of them the union keeps is an accident of merge
+        # order, not something the property fixes - those are compared by value.
+        triples = conflated_numbers(c)
+        if triples:
+            self.probe("numbers_compared_by_value")
+            got, exp = by_value(got, triples), by_value(exp, triples)
 
         def unordered_bundles(snap):
             return (snap[0], tuple(sorted(snap[1], key=repr)))
@@ -117,17 +124,55 @@ class C08(Oracle):
         nout = len(exp[0]) + sum(len(b[1]) for b in exp[1])
         if nout < nrec:
             self.count("unified_with_merge")
-        if any(True for _ in ()):
-            pass
         # idempotence
         try:
             uu = u.unified()
         except Exception as e:
             raise Violation("C08", "idempotent", "second-unified-raised", {"operation": op, "error": repr(e)})
-        if unordered_bundles(observe.doc_obs(uu)) != unordered_bundles(got):
+        again = observe.doc_obs(uu)
+        if triples:
+            again = by_value(again, triples)
+        if unordered_bundles(again) != unordered_bundles(got):
             raise Violation("C08", "idempotent", "differs", {
-                "operation": op, "records": observe.diff_multisets(got[0], observe.doc_obs(uu)[0])})
+                "operation": op, "records": observe.diff_multisets(got[0], again[0])})
         self.count("idempotence_checks")
+
+
+def conflated_numbers(c):
+    """(container key, identifier URI, attribute URI) triples - key None for `c` itself, a
+    bundle's URI for the bundles of a document - where records sharing the identifier hold
+    value-equal numbers of different kinds."""
+    num = (bool, int, float)
+    out = set()
+    conts = [(None, c)] + ([(observe._uri(b.identifier), b) for b in c.bundles] if c.is_document() else [])
+    for ck, cc in conts:
+        seen = {}
+        for r in cc.get_records():
+            if r.identifier is None:
+                continue
+            for a, v in r.attributes:
+                if isinstance(v, num):
+                    for w in seen.setdefault((r.identifier.uri, a.uri), []):
+                        if w == v and type(w) is not type(v):
+                            out.add((ck, r.identifier.uri, a.uri))
+                    seen[(r.identifier.uri, a.uri)].append(v)
+    return out
+
+
+def by_value(snap, triples):
+    def val(k):
+        v = float(k[1]) if k[0] == "float" else int(k[1])
+        if isinstance(v, float) and v == v and v not in (float("inf"), float("-inf")) and v.is_integer():
+            v = int(v)
+        return ("num", repr(v))
+
+    def rec(ck, r):
+        if not any(t[0] == ck and t[1] == r[1] for t in triples):
+            return r
+        attrs = {(a, val(k) if (ck, r[1], a) in triples and k[0] in ("int", "bool", "float") else k) for a, k in r[2]}
+        return (r[0], r[1], tuple(sorted(attrs, key=repr)))
+
+    return (tuple(rec(None, r) for r in snap[0]), tuple((u, tuple(rec(u, r) for r in rs)) for u, rs in snap[1]))
 
 
 def full_snapshot(c):
